@@ -384,6 +384,8 @@ def run(ctx):
                 "call of a path (= after every epoch), after restoration, and every _update_weights call (weights before / after the "
                 "optimiser / after the proximal step).  check_groups on random legal and illegal lists (n 1..6).  Non-trivial = a run in "
                 "which some feature was really discarded; distinct = hash of all inputs.")
+    from . import c05
+    c05.regen(ctx)          # Gen/Prox.lean follows the current source before the theorems (C06 + companion C05Gen) are re-checked
     ctx.do_prove()
     quick = ctx.tier == "quick"
     rs = np.random.RandomState(ctx.seed * 6007 + 6)        # configurations
